@@ -199,7 +199,8 @@ theorem nsr_stateOnPeerFin {st : TcpState} (h : st ≠ .synReceived) : stateOnPe
 theorem nsr_stateOnShutdown {st : TcpState} (h : st ≠ .synReceived) : stateOnShutdown st ≠ .synReceived := by
   cases st <;> simp [stateOnShutdown] at h ⊢
 
-theorem nsr_onAck {t : Tcb} (s : Seg) (h : t.state ≠ .synReceived) : (t.onAck s).state ≠ .synReceived := by
+theorem nsr_onAck {t : Tcb} (fm : Bool) (s : Seg) (h : t.state ≠ .synReceived) :
+    (t.onAck fm s).state ≠ .synReceived := by
   unfold onAck
   split
   · split
@@ -215,8 +216,8 @@ theorem nsr_handleEstablished {t : Tcb} (cfg : Cfg) (s : Seg) (h : t.state ≠ .
     (t.handleEstablished cfg s).1.state ≠ .synReceived := by
   unfold handleEstablished
   dsimp only
-  have h1 := nsr_onAck s h
-  have h2 : ((t.onAck s).onData cfg.recvCap s).1.state ≠ .synReceived := by
+  have h1 := nsr_onAck cfg.fixSndMax s h
+  have h2 : ((t.onAck cfg.fixSndMax s).onData cfg.recvCap s).1.state ≠ .synReceived := by
     rw [onData_send]; exact h1
   unfold onFin
   split
